@@ -5,8 +5,8 @@ L: Props/C12.lean (parse_print, print_fixpoint, print_injective on the printed s
 K: token text of `asn1c -E` = token text of the Lean `print` on the generator's subset.
 P: (1) two/three runs of asn1c on the same module (normal, `setarch -R` = ASLR off, large environment +
        MALLOC_PERTURB_) -> byte-identical file sets;
-   (2) module set split into 2-4 files with IMPORTS, every permutation of the file list -> identical
-       per-type .c/.h;
+   (2) module set split into 2-4 files with IMPORTS, and sets of 2-3 modules that define a top-level type of the
+       same name / colliding inner member names, every permutation of the file list -> identical per-type .c/.h;
    (3) `asn1c -E` text re-fed to `asn1c -E`: accepted, identical (one and two applications), over generated
        modules and the shipped corpus (tests/tests-asn1c-compiler/*-OK*.asn1, examples/*.asn1);
    (4) generated non-parameterized modules: code generated from the printed text = code generated from the original."""
@@ -235,6 +235,17 @@ def run(ctx):
                 perms = [perms[0]] + ctx.rng.sample(perms[1:], 11)
             for pi, perm in enumerate(perms):
                 pjobs.append((i, pi, perm, parts, OPTSETS[i % 2][1]))
+        # module sets in which two modules define a top-level type of the SAME name (each used in its own module;
+        # asn1c prefixes both with the module name), and sets with colliding inner member names: all orders
+        nsame = 8 if ctx.quick else 40
+        for i in range(nsame):
+            mode = "same-toplevel" if i % 4 != 3 else ctx.rng.choice(["cross-import", "none", "member-cross"])
+            k = [2, 3, 2, 3][i % 4]
+            td = ctx.rng.choice([None, "AUTOMATIC", "IMPLICIT", "EXPLICIT"])
+            files, _, desc = cgen.gen_multi(ctx.rng, f"S{i}", k, mode, td)
+            parts = [(fn[:-5], text) for fn, text in files]
+            for pi, perm in enumerate(itertools.permutations(range(k))):
+                pjobs.append((1000 + i, pi, perm, parts, [["-fcompound-names"], [], ["-fcompound-names", "-no-gen-OER"]][i % 3]))
         def perm_job(a):
             i, pi, perm, parts, opts = a
             d = os.path.join(root, f"perm{i}-{pi}"); os.makedirs(d)
@@ -260,7 +271,7 @@ def run(ctx):
             d = cgen.diff_trees(t0, t, per_type)
             if d: fail("order-dependent-output", " ".join(d[:6]), rp)
             else: ctx.count_nontrivial(("perm", i, perm))
-        ctx.cov["predicate"]["permutations"] = {"module_sets": nperm_mods, "runs": len(pjobs), "compared": nperm}
+        ctx.cov["predicate"]["permutations"] = {"module_sets": nperm_mods, "same_name_sets": nsame, "runs": len(pjobs), "compared": nperm}
 
         # ------------------------------------------------------------ P3 on the shipped corpus
         corpus = sorted(glob.glob(os.path.join(build.REPO, "tests", "tests-asn1c-compiler", "*-OK*.asn1"))) + \
